@@ -212,27 +212,40 @@ def matrix_lines(Qt, tri):
 
 
 def write_lines(m):
+    """gen['lay'] selects a layout the format allows: 'std' (one column-header comment per block), 'nohdr' (none), 'extra' (two
+    comment lines after each block title), 'mid' (comment lines between the data lines of SITE/ID, SOLUTION/EPOCHS and
+    SOLUTION/ESTIMATE), 'blocks' (further blocks the editing functions have no business with: FILE/REFERENCE before SITE/ID,
+    SOLUTION/STATISTICS after SOLUTION/EPOCHS)."""
+    lay = m['gen'].get('lay', 'std')
+
+    def block(title, hdr, data, title_tail=''):
+        out = ['+' + title + title_tail]
+        if lay != 'nohdr':
+            out.append(hdr)
+        if lay == 'extra':
+            out.append('* second comment line of the block')
+        data = list(data)
+        if lay == 'mid' and len(data) >= 2 and 'MATRIX' not in title:
+            k = len(data) // 2
+            data = data[:k] + ['* comment between two data lines'] + data[k:]
+        out.extend(data)
+        out.append('-' + title + title_tail)
+        return out
     L = [header_line(m)]
     if m['comment'] is not None:
         L.append('+FILE/COMMENT')
         L.extend(m['comment'])
         L.append('-FILE/COMMENT')
-    L.append('+SITE/ID')
-    L.append(HDR_SITE)
-    L.extend(site_line(s) for s in m['sites'])
-    L.append('-SITE/ID')
-    L.append('+SOLUTION/EPOCHS')
-    L.append(HDR_EPOCH)
-    L.extend(epoch_line(m, c, s) for c, s in m['stasol'])
-    L.append('-SOLUTION/EPOCHS')
-    L.append('+SOLUTION/ESTIMATE')
-    L.append(HDR_EST)
-    L.extend(estimate_line(i + 1, e) for i, e in enumerate(m['est']))
-    L.append('-SOLUTION/ESTIMATE')
-    L.append('+SOLUTION/MATRIX_ESTIMATE %s COVA' % m['tri'])
-    L.append(HDR_MAT)
-    L.extend(matrix_lines(m['Q'], m['tri']))
-    L.append('-SOLUTION/MATRIX_ESTIMATE %s COVA' % m['tri'])
+    if lay == 'blocks':
+        L += ['+FILE/REFERENCE', ' DESCRIPTION        generated test solution', ' SOFTWARE           sinex_synth', '-FILE/REFERENCE']
+    L += block('SITE/ID', HDR_SITE, (site_line(s) for s in m['sites']))
+    L += block('SOLUTION/EPOCHS', HDR_EPOCH, (epoch_line(m, c, s) for c, s in m['stasol']))
+    if lay == 'blocks':
+        L += ['+SOLUTION/STATISTICS', '*_STATISTICAL PARAMETER________ __VALUE(S)____________',
+              ' NUMBER OF OBSERVATIONS              %17d' % (3 * len(m['est'])), ' VARIANCE FACTOR                    1.000000000000000',
+              '-SOLUTION/STATISTICS']
+    L += block('SOLUTION/ESTIMATE', HDR_EST, (estimate_line(i + 1, e) for i, e in enumerate(m['est'])))
+    L += block('SOLUTION/MATRIX_ESTIMATE', HDR_MAT, matrix_lines(m['Q'], m['tri']), ' %s COVA' % m['tri'])
     L.append(TRAILER)
     return L
 
